@@ -316,9 +316,14 @@ class PipeWorld:
                 if k not in KNOWN_NODE_ATTRS:
                     extra.append((tag, k, copy.deepcopy(v)))
         workers = []
+        first = {}
         for h in farm._workers:
             c = self._conn_of(h)
-            workers.append((c.rev, c.hand.address.host))
+            # the same connection may be listed more than once (a register frame
+            # processed twice): entries of one connection share their number
+            k = first.setdefault(id(h), len(first))
+            workers.append((c.rev, c.hand.address.host) if list(farm._workers).count(h) == 1
+                           else (c.rev, c.hand.address.host, k))
         return {
             'nodes': tuple(nodes),
             'node_extra': tuple(extra),
@@ -387,12 +392,19 @@ class PipeWorld:
         for c in self.conns:
             c.lost = True
         self.conns = []
-        for rev, host in s['workers']:
+        shared = {}
+        for entry in s['workers']:
+            rev, host = entry[:2]
+            if len(entry) > 2 and entry[2] in shared:
+                farm._workers.append(shared[entry[2]].hand)
+                continue
             c = Conn(self, host)
             c.rev = rev
             # registered earlier with the revision that was current then
             c.hand._Hand__incarnation = 0
             farm._workers.append(c.hand)
+            if len(entry) > 2:
+                shared[entry[2]] = c
         self.inflight = [list(u) for u in s['inflight']]
         self.uid = s['uid']
         self.next_total = s.get('nexts', 0)
@@ -487,6 +499,14 @@ class PipeWorld:
         c.feed(message.make(typ=message.Type.register, inc=0, rev=c.rev))
         self.collect()
         return c
+
+    def ev_rereg(self, index):
+        '''the register frame of an already registered, still waiting worker is
+        processed a second time'''
+        hand = farm._workers[index]
+        c = self._conn_of(hand)
+        c.feed(message.make(typ=message.Type.register, inc=0, rev=c.rev))
+        self.collect()
 
     def ev_drop(self, index):
         hand = farm._workers[index]
